@@ -48,6 +48,11 @@ CHECKS = {
   note="Trusted: go/ssa, encoding/json struct-tag semantics. Lease-mode reload/remote-apply ignore the recorded address and one apply error is discarded (3 known findings).",
   tech="static analysis: value-provenance (def-use) rules, error-discipline, path-sensitive rollback dataflow, type-level comparison of serialisation structs on go/ssa + go/types",
   ref="DESIGN.md §2 C12"),
+ "C20": dict(
+  text="Structural clauses of key uniqueness for the key tables the property names (VLAN allocator, QinQ mapper, PPPoE session manager, subscriber manager, state store, in-memory allocation store, DHCP lease tables, circuit-id keys): lockset; path-sensitive bijection rule for forward/reverse maps (insert both, delete both or reverse shown absent, eviction on overwrite); an insert into an identity/reverse index is dominated by a lookup of that key in that index or the key comes from the type's free search, or every delete of the index is identity-guarded; the key field is not rewritten between check and insert; recorded VLAN tags come from the range-bounded search or are compared with the configured range; a key is not released after its new entry was inserted; lossy derived keys (hash, 32-byte truncation) are written only after a collision check. Id wrap-around arithmetic and hash collision probability are not decided.",
+  note="Trusted: go/ssa, the must-held lock analysis, the per-type tables in engines/c20.go. 14 unguarded index inserts (generic state store, subscriber by-IP index, truncated circuit-id key) are known findings.",
+  tech="static analysis: lockset, path-sensitive finite-domain dataflow for map pairing, dominance-based guarded-insert / range / ordering rules on go/ssa",
+  ref="DESIGN.md §2 C20, §1.3 E6"),
 }
 NA = {}
 def main():
